@@ -62,8 +62,11 @@ def gen(prop, stream, tier, avoid):
             if op["nu"] == op["nv"]:
                 op["nv"] += 1
             op["w"] = rng.randint(2, 16) / 4.0
+            op["wseq"] = rng.pick(["list", "list", "tuple"])
+            op["scribble"] = rng.chance(0.4)
         if k in ("set_ptsw", "set_pts", "set_weights", "helpers"):
             op["seq"] = rng.pick(["list", "list", "tuple"])          # sequence type the caller hands to the setter
+            op["scribble"] = rng.chance(0.3)
             if k == "set_ptsw" and kind == "surface" and rng.chance(0.3):
                 op["via2d"] = True                                   # through the 2-dimensional view (surface.ctrlpts2d = rows)
         if k in ("set_ptsw", "set_pts", "set_weights") and rng.chance(knobs["reject_p"]):
@@ -156,7 +159,7 @@ def run(script, ctx):
                     else:
                         obj.ctrlptsw = tuple(tuple(q) for q in val) if tup else val
                     if not rej:
-                        P, W = newP, newW
+                        P, W = [list(q) for q in newP], list(newW)
                 elif k == "set_pts":
                     val = newP
                     if rej == "length":
@@ -165,14 +168,14 @@ def run(script, ctx):
                         val = [p + [1.0, 2.0] for p in val]
                     obj.ctrlpts = tuple(tuple(q) for q in val) if tup else val
                     if not rej:
-                        P = newP
+                        P = [list(q) for q in newP]
                 else:
                     val = newW
                     if rej:
                         val = val + [1.0]
                     obj.weights = tuple(val) if tup else val
                     if not rej:
-                        W = newW
+                        W = list(newW)
                 if rej:
                     # an invalid value was accepted: nothing is asserted about the faulted call, but the object is no longer one we can model
                     ctx.fault("rejected_setter_accepted")
@@ -194,6 +197,15 @@ def run(script, ctx):
                     ctx.probe("object_left_undefined")
                     return
                 continue
+            if op.get("scribble") and not tup and not rej and not op.get("via2d"):
+                # the caller goes on editing the list it passed (to build its next shape from it); the shape keeps its own data
+                if k == "set_weights":
+                    val.reverse()
+                    val[0] = val[0] * 2.0
+                else:
+                    val[0][0] = val[0][0] + 1.0
+                    val[-1] = [c * 0.5 for c in val[-1]]
+                ctx.probe("caller_reused_its_argument_list_after_the_setter")
             ctx.log("set", k)
             ctx.ops_executed += 1
             if setters_seen and setters_seen[-1] != k and read_since:
@@ -327,9 +339,15 @@ def run(script, ctx):
                 cnt = (gm["nu"] + 1) * (gm["nv"] + 1)
                 ws = [(i + 2) / 4.0 for i in range(cnt)]       # pairwise different
                 rng.shuffle(ws)
-                grid.weight = ws
-                gm["w"] = ws
-                ctx.log("grid_weight_list", cnt)
+                gm["w"] = list(ws)
+                passed = tuple(ws) if op.get("wseq") == "tuple" else ws
+                grid.weight = passed
+                if op.get("scribble") and isinstance(passed, list):
+                    # the caller goes on using its list (for its next grid); the grid must hold its own weights
+                    passed.reverse()
+                    passed[0] = passed[0] * 2.0
+                    ctx.probe("caller_reused_its_weight_list_after_the_setter")
+                ctx.log("grid_weight_list", cnt, op.get("wseq"), bool(op.get("scribble")))
             elif gk == "weight_scalar":
                 grid.weight = op["w"]
                 gm["w"] = [op["w"]] * ((gm["nu"] + 1) * (gm["nv"] + 1))
